@@ -467,6 +467,59 @@ def model_to_dict(m):
 # obligations and paths
 
 
+def _symbols(e, cache):
+    k = e.get_id()
+    if k in cache:
+        return cache[k]
+    out = set()
+    todo = [e]
+    seen = set()
+    while todo:
+        x = todo.pop()
+        i = x.get_id()
+        if i in seen:
+            continue
+        seen.add(i)
+        if z3.is_const(x) and x.decl().kind() == z3.Z3_OP_UNINTERPRETED:
+            out.add(x.decl().name())
+        elif z3.is_app(x):
+            if x.decl().kind() == z3.Z3_OP_UNINTERPRETED and x.num_args() > 0:
+                out.add(x.decl().name())
+            if z3.is_app_of(x, z3.Z3_OP_SELECT) and z3.is_const(x.arg(0)):
+                # array reads: the array name alone would connect everything; use array+index text
+                out.add("sel:" + str(x))
+                todo.extend(x.children()[1:])
+                continue
+            todo.extend(x.children())
+    cache[k] = out
+    return out
+
+
+def slice_hyps(hyps, goal, depth):
+    cache = {}
+    syms = set(_symbols(goal, cache))
+    hs = [(h, _symbols(h, cache)) for h in hyps]
+    chosen = [False] * len(hs)
+    closed = depth == "1+closed"
+    if closed:
+        depth = 1
+    for _ in range(depth):
+        new = set()
+        for i, (h, sy) in enumerate(hs):
+            if not chosen[i] and (sy & syms):
+                chosen[i] = True
+                new |= sy
+        if not new - syms:
+            break
+        syms |= new
+    if closed:
+        # plus every hypothesis that speaks only about symbols already collected (facts about the same objects)
+        for i, (h, sy) in enumerate(hs):
+            if not chosen[i] and sy and sy <= syms:
+                chosen[i] = True
+    return [h for (h, _), c in zip(hs, chosen) if c]
+
+
 class Obligation:
     __slots__ = ("oid", "function", "path_class", "clause", "hyps", "goal", "status", "backend", "time_s",
                  "model", "note", "kind", "src")
@@ -492,6 +545,21 @@ class Obligation:
             goal = z3.BoolVal(self.goal)
         else:
             goal = self.goal
+        # hypothesis slicing (sound: unsat with a subset of the hypotheses is unsat with all of them)
+        tm = timeout_ms or TIMEOUT_MS
+        if len(self.hyps) > 12:
+            for depth in (1, "1+closed", 2):
+                sub = slice_hyps(self.hyps, goal, depth)
+                if len(sub) >= len(self.hyps):
+                    break
+                r, info = check_sat(sub + [z3.Not(goal)], timeout_ms=max(1000, tm // 4), want_model=False, use_cvc5=False)
+                if r == "unsat":
+                    self.time_s = time.time() - t0
+                    self.status = "discharged"
+                    self.backend = info
+                    self.note = f"hypotheses sliced to {len(sub)}/{len(self.hyps)}"
+                    STATS.by_backend[info] = STATS.by_backend.get(info, 0) + 1
+                    return self.status
         r, info = check_sat(self.hyps + [z3.Not(goal)], timeout_ms=timeout_ms, want_model=True)
         self.time_s = time.time() - t0
         if r == "unsat":
